@@ -48,7 +48,7 @@ def mixed(e):
 
 
 def run(ctx):
-    ctx.build()
+    bins = ctx.build(binaries=("benchfilter",))
     q = ctx.quick
     # (M) exhaustive
     if q:
@@ -92,10 +92,12 @@ def run(ctx):
     # (T) recorded evaluations judged by the spec
     nev = 400 if q else 6000
     tp = os.path.join(ctx.work, "filtersem-trace.ndjson")
-    ctx.harness(["filtersem", "record", tp, nev])
+    ctx.harness(["filtersem", "record", tp, nev, bins["benchfilter"]])
     events = ctx.read_ndjson(tp)
-    if len(events) != nev:
-        raise vlib.Infra("recorder wrote %d events, wanted %d" % (len(events), nev))
+    nbin = sum(1 for e in events if e["ev"] == "apply")
+    if len(events) - nbin != nev:
+        raise vlib.Infra("recorder wrote %d library events, wanted %d" % (len(events) - nbin, nev))
+    ctx.cov["benchfilter_binary_events"] = nbin
     big = sum(1 for e in events if len(e["res"]["meas"]) > 32 and has_op(e["expr"], ("unit", "unitre")))
     s = dict(events[0]); s["res"] = dict(s["res"]); s["res"]["meas"] = s["res"]["meas"][:3] + ["..."]; s["bits"] = s["bits"][:8]
     ctx.add_samples([s], 1)
